@@ -1,10 +1,11 @@
-(* Extraction of the executable C10 model (Model/Placement.v, Model/BulkPlacement.v) for the correspondence check.
+(* Extraction of the executable C10 model (Model/Placement.v, Model/BulkPlacement.v, Model/Priority.v) for the correspondence check.
    Directives: exactly those of ExtrOcamlBasic; nat, positive, Z stay the extracted inductive types
    (N.of_nat is listed only because ocaml/conv.ml.in mentions the type N). *)
 Require Extraction.
 Require ExtrOcamlBasic.
 From Coq Require Import NArith.
-From Pika Require Import Base.Conc Model.Placement Model.BulkPlacement.
+From Pika Require Import Base.Conc Model.Placement Model.BulkPlacement Gen.GenPriority Model.Priority.
 Extraction Language OCaml.
 Extraction "m.ml" step pl_tstep g_init l_init find_handle where_is get_task hint_num base_queue N.of_nat
-  bulk_allowed bulk_worker part_nonempty bk_tstep bk_init.
+  bulk_allowed bulk_worker part_nonempty bk_tstep bk_init
+  resolve_priority resolve_priority_thread stored_rprio child_queue rp_all rp_ord.
